@@ -13,7 +13,7 @@ ASSUMPTIONS = ['"nearest level where a real choice was made" is read as: nearest
 
 
 def budget(tier):
-    return {'quick': 320, 'thorough': 6000}[tier]
+    return {'quick': 640, 'thorough': 8000}[tier]
 
 
 def strategy(tier):
